@@ -2077,6 +2077,9 @@ impl Connection {
             _ => unreachable!("first packet must be delivered in Handshake state"),
         }
 
+        // This packet was authenticated by the endpoint and bypasses `handle_packet`: record its
+        // number so that a duplicate of it is recognized like any other
+        self.spaces[SpaceId::Initial].dedup.insert(packet_number);
         self.on_packet_authenticated(
             now,
             SpaceId::Initial,
